@@ -292,13 +292,14 @@ class Gen:
             add("restr", "restr")
         if shape == ():
             add("mul", "arith", 2)
-            add("pow", "pow", 2)
-            add("fn", "math", 2)
-            add("minmax", "cond")
             if not free:
+                # ufl requires "true scalars" (no shape, no free indices) here
+                add("pow", "pow", 2)
+                add("fn", "math", 2)
+                add("minmax", "cond")
                 add("sign", "sign")
-            add("atan2", "math2")
-            add("bessel", "bessel")
+                add("atan2", "math2")
+                add("bessel", "bessel")
             add("indexfix", "index", 2)
             if len(free) + 2 <= len(self.names):
                 add("contract", "index")
@@ -357,6 +358,8 @@ class Gen:
                 opts.extend(["rows"] * 2)
             if "shortcut" in O and len(shape) == 2:
                 opts.extend(["comp_of_indexed"] * 2)
+            if "shortcut" in O and len(shape) in (2, 3) and all(s == self.g for s in shape[1:]) and len(free) + len(shape) <= len(self.names):
+                opts.extend(["list_of_comps"] * 2)
         op = self.pick(opts)
         self.used.add(op)
         e = self.expr
@@ -364,6 +367,10 @@ class Gen:
         if op == "leaf":
             return self.leaf(shape, free)
         if op == "add":
+            if "pylit" in O and shape == () and not free and self.chance(1, 6):
+                pl = ["pylit", self.pick([0, 1, 2, -1, 0.5, 2.5])]
+                other = e(shape, free, d)
+                return ["add", pl, other] if self.chance(1, 2) else ["add", other, pl]
             return ["add", e(shape, free, d), e(shape, free, d)]
         if op == "sub":
             return ["sub", e(shape, free, d), e(shape, free, d)]
@@ -371,6 +378,8 @@ class Gen:
             return ["neg", e(shape, free, d)]
         if op == "smul":
             a = e((), (), d) if self.chance(2, 3) else self.lit()
+            if a[0] == "lit" and "pylit" in O and self.chance(1, 2) and not isinstance(a[1], dict):
+                a = ["pylit", a[1]]
             b = e(shape, free, d)
             return ["mul", a, b] if self.chance(1, 2) else ["mul", b, a]
         if op == "sdiv":
@@ -501,9 +510,11 @@ class Gen:
             big = shape + (g,)
             return ["divop", self.with_field(e(big, (), d), big, ())]
         if op == "matvec":
-            return ["mul", e((shape[0], g), (), d), e((g,), (), d)]
+            m = self.pick([g, g, 1, 2, 3]) if "oddshape" in O else g
+            return ["mul", e((shape[0], m), (), d), e((m,), (), d)]
         if op == "dotmv":
-            return ["dot", e((shape[0], g), (), d), e((g,), (), d)]
+            m = self.pick([g, g, 1, 2, 3]) if "oddshape" in O else g
+            return ["dot", e((shape[0], m), (), d), e((m,), (), d)]
         if op == "perp":
             return ["perp", e((2,), (), d)]
         if op == "cross":
@@ -517,9 +528,11 @@ class Gen:
         if op == "T":
             return ["T", e(shape[::-1], (), d)]
         if op == "matmul":
-            return ["mul", e((shape[0], g), (), d), e((g, shape[1]), (), d)]
+            m = self.pick([g, g, 1, 2, 3]) if "oddshape" in O else g
+            return ["mul", e((shape[0], m), (), d), e((m, shape[1]), (), d)]
         if op == "dotmm":
-            return ["dot", e((shape[0], g), (), d), e((g, shape[1]), (), d)]
+            m = self.pick([g, g, 1, 2, 3]) if "oddshape" in O else g
+            return ["dot", e((shape[0], m), (), d), e((m, shape[1]), (), d)]
         if op == "outer":
             return ["outer", e((shape[0],), (), d), e((shape[1],), (), d)]
         if op in ("sym", "skew", "dev"):
@@ -533,18 +546,38 @@ class Gen:
         if op == "rows":
             # rows/entries of one tensor, in or out of order (constructor shortcut shapes)
             n = shape[0]
-            big = e(shape, (), d) if self.chance(1, 2) else self.leaf(shape, ())
+            pos = self.draw(st.integers(0, len(shape) - 1))
+            # the listed axis of the big tensor sits at position `pos`; listing it puts it first
+            bshape = shape[1:pos + 1] + (n,) + shape[pos + 1:]
+            big = e(bshape, (), d) if self.chance(1, 2) else self.leaf(bshape, ())
             order = list(range(n))
             if self.chance(1, 2):
                 order = list(self.draw(st.permutations(order)))
             if self.chance(1, 4):
                 order[0] = order[-1]
-            pos = self.draw(st.integers(0, len(shape) - 1))
             rows = []
             for k in order:
                 ix = [":"] * len(shape)
                 ix[pos] = k
                 rows.append(["index", big, ix])
+            return ["list", rows]
+        if op == "list_of_comps":
+            # [as_tensor(T[k, i, j], (j, i)) for k]: rows that are component tensors over one operand
+            n = shape[0]
+            un = self.unused(free)
+            names = list(self.draw(st.permutations(un)))[: len(shape) - 1]
+            T = self.leaf((n,) + (g,) * (len(shape) - 1), ())
+            inner = list(self.draw(st.permutations(names)))
+            bound = list(self.draw(st.permutations(names)))
+            rows = []
+            order = list(range(n))
+            if self.chance(1, 3):
+                order = list(self.draw(st.permutations(order)))
+            for k in order:
+                body = ["index", T, [k] + inner]
+                if free:
+                    body = ["mul", body, self.leaf((), free)]
+                rows.append(["as_tensor", body, bound])
             return ["list", rows]
         if op == "comp_of_indexed":
             un = self.unused(free)
